@@ -26,6 +26,7 @@ def gen_cases(tier, seed):
                       "val": bool(k % 2), "val_batches": int(rng.integers(1, 4)), "evaluator": bool((k // 2) % 2 or k % 3 == 0),
                       "mode": ["multi-class", "binary", "categorical"][k % 3], "opt": ["SGD", "Adam"][(k // 3) % 2],
                       "callbacks": bool(k % 4 == 1), "extra_metric": bool(k % 5 == 2), "test": bool(k % 3 == 1), "leftover": int(rng.integers(0, 2)),
+                      "extra_param": bool(k % 4 == 2), "premode": [None, "sub-eval", "all-eval", None][k % 4],
                       "seed": int(rng.integers(2 ** 31))})
     return cases
 
@@ -47,7 +48,13 @@ def run_case(ns, ctx, c):
         layers.append(nn.Sigmoid())
     model = nn.Sequential(*layers)
     crit = {"multi-class": nn.CrossEntropyLoss(), "binary": nn.BCELoss(), "categorical": nn.MSELoss()}[mode]
-    opt = getattr(ns.optim, c["opt"])(model.parameters(), lr=0.05)
+    offset = nn.Parameter(T(np.full((2,), 0.5, dtype=np.float32), requires_grad=True))       # a learnable tensor of the loss, not part of the model
+    opt_params = model.parameters() + ([offset] if c.get("extra_param") else [])
+    opt = getattr(ns.optim, c["opt"])(opt_params, lr=0.05)
+    if c.get("premode") == "sub-eval":
+        model.submodules()[3].eval(); model.submodules()[1].eval()        # a model whose parts were left in eval mode before fit
+    elif c.get("premode") == "all-eval":
+        model.eval()
 
     def data(nb):
         n = nb * c["bs"] + c["leftover"]
@@ -108,12 +115,14 @@ def run_case(ns, ctx, c):
     class TracedLoss:
         def __call__(self, outputs, labels):
             l = crit(outputs, labels)
+            if c.get("extra_param"):
+                l = l + (offset * offset).sum() * 0.1
             rec("loss", value=float(np.asarray(l.data)), labels=np.array(labels.data))
             return l
     o_backward = ns.Tensor.backward
 
     def bw(self_t, grad=None):
-        rec("backward:before")
+        rec("backward:before", grads_clear=all(p._grad is None or not np.any(p._grad) for p in opt_params))
         r = o_backward(self_t, grad) if grad is not None else o_backward(self_t)
         rec("backward")
         return r
@@ -214,21 +223,18 @@ def run_case(ns, ctx, c):
                 else:
                     pred = out.argmax(axis=1); true = lab.argmax(axis=1)
                 (train_hits if phase == "train" else val_hits)[-1].append((int((pred == true).sum()), len(true)))
-        elif k == "zero_grad":
-            since_zero = 0
-            if phase != "train":
-                viol.append(V("grammar:zero_grad-outside-training", "zero_grad called outside the training phase"))
-        elif k == "backward":
-            if since_zero is None:
-                viol.append(V("grammar:backward-without-zero_grad", "backward ran before any zero_grad"))
-            else:
-                since_zero += 1
+        elif k == "backward:before":
+            # "each update is preceded by clearing the gradients": observed on the gradients themselves, whatever call cleared them
+            if not e["grads_clear"]:
+                viol.append(V("grammar:backward-on-uncleared-gradients",
+                              "a training backward started while a parameter held by the optimizer still carried a gradient from an earlier batch", event=i))
+            since_zero = (since_zero or 0) + 1
             if phase != "train":
                 viol.append(V("grammar:backward-outside-training", "backward called during validation"))
         elif k == "step:before":
             if since_zero != 1:
-                viol.append(V("grammar:step-not-preceded-by-zero_grad-then-one-backward",
-                              f"optimizer.step ran with {since_zero} backward calls since the last zero_grad (expected exactly 1)", event=i))
+                viol.append(V("grammar:step-not-preceded-by-exactly-one-backward",
+                              f"optimizer.step ran after {since_zero or 0} backward calls since the previous step (expected exactly 1)", event=i))
             if phase != "train" or not all(e["training"]):
                 viol.append(V("grammar:step-outside-training-mode", "optimizer.step ran while the model was not in training mode"))
             since_zero = None
@@ -305,7 +311,7 @@ def run_case(ns, ctx, c):
     for v in viol:
         if v["sig"] not in seen:
             seen.add(v["sig"]); vv.append(v)
-    cfg = [c["epochs"], nb, c["val"], c["evaluator"], mode, c["opt"], c["callbacks"], c["extra_metric"], c["test"]]
+    cfg = [c["epochs"], nb, c["val"], c["evaluator"], mode, c["opt"], c["callbacks"], c["extra_metric"], c["test"], c.get("extra_param"), c.get("premode")]
     kinds = {}
     for e in fit_events + test_events:
         kinds[e["kind"]] = kinds.get(e["kind"], 0) + 1
@@ -314,10 +320,11 @@ def run_case(ns, ctx, c):
         counters["events:" + k_] = v_
     return {"key": json.dumps(cfg) if (E >= 2 or nb >= 2) else None, "viol": vv, "counters": counters,
             "cover": {"modes": [mode], "optimizers": [c["opt"]], "features": [f for f, b in (("validation", c["val"]), ("evaluator", c["evaluator"]), ("callbacks", c["callbacks"]),
-                                                                                      ("extra-metric", c["extra_metric"]), ("test", c["test"])) if b]},
+                                                                                      ("extra-metric", c["extra_metric"]), ("test", c["test"]),
+                                                                                      ("optimizer-param-outside-model", c.get("extra_param")), ("premode:" + str(c.get("premode")), bool(c.get("premode")))) if b]},
             "sample": {"config": c, "trace_kinds": [e["kind"] for e in fit_events[:40]]}}
 
 
 def finish(agg, tier):
     c = agg["counters"]
-    return [f"zero-events:{k}" for k in ("fit_runs", "events:step", "events:zero_grad", "events:backward", "events:forward", "events:loss", "events:eval", "events:train") if not c.get(k)]
+    return [f"zero-events:{k}" for k in ("fit_runs", "events:step", "events:backward", "events:forward", "events:loss", "events:eval", "events:train") if not c.get(k)]
